@@ -28,6 +28,9 @@ type Profile struct {
 	Ext           bool
 	Odd           bool    // schemas that are legal but unusual (no body, clashes, nested targetables)
 	NoSchema      bool    // path context without a schema
+	Typing        bool // some top-level items are names still being typed
+	ManyBlocks    bool // long interleaved runs of nested blocks
+	Builtins      bool // the server adds range-less built-in targets (path.module ...)
 	DistinctNames bool    // no two paths hold a file of the same name
 	SiblingLang   bool    // append a path with the directory of path 0 and another language id (terraform + terraform-vars)
 	ClonePath     bool    // append a copy of path 0 under another directory (same files, same offsets)
@@ -45,6 +48,8 @@ type Gen struct {
 	scopes []string
 	// the value just written for the attribute being declared
 	lastExpr *Expr
+	// addresses of the server's built-in targets
+	builtins []string
 }
 
 func NewGen(seed uint64, stream uint64, p Profile) *Gen {
